@@ -412,7 +412,7 @@ def sat_stats(slot, h, timeout=150):
     goto = ph["goto_file"].replace(".symtab.out", ".out")
     if not os.path.exists(goto):
         return None
-    cmd = ["cbmc"] + CBMC_FLAGS + (["--unwind", str(ph["attributes"]["unwind_value"])] if ph["attributes"].get("unwind_value") else []) + [goto]
+    cmd = ["cbmc"] + CBMC_FLAGS + ["--verbosity", "9"] + (["--unwind", str(ph["attributes"]["unwind_value"])] if ph["attributes"].get("unwind_value") else []) + [goto]
     try:
         t0 = time.time()
         out = subprocess.run(["bash", "-c", "ulimit -v 16000000; exec timeout %d %s" % (timeout, " ".join(map(shquote, cmd)))],
@@ -432,7 +432,7 @@ def sat_stats(slot, h, timeout=150):
             "sat_queries": len(re.findall(r"SAT checker: instance is", out)),
             "solver_s": round(sum(float(x) for x in re.findall(r"Runtime Solver: ([0-9.e+-]+)s", out)), 3),
             "symex_s": round(float(m3.group(1)), 2) if m3 else 0.0, "cbmc_wall_s": round(wall, 1),
-            "verdict_line": (re.findall(r"^VERIFICATION (\w+)", out, flags=re.M) or ["?"])[-1]}
+            "note": "instance sizes only; the verdict is Kani's (raw CBMC counts a satisfied cover witness as a failed property)"}
 
 
 def last_error_lines(t):
